@@ -38,7 +38,10 @@ func ownedBy(refs []metav1.OwnerReference, s *suggestionsv1beta1.Suggestion) boo
 func init() {
 	runners["C17"] = func(rng *rand.Rand, tier string, k int) Case {
 		getValidator() // sets valScheme
-		cfg := configv1beta1.SuggestionConfig{AlgorithmName: "random"}
+		// algorithm names are whatever katib-config lists (not constrained); with a 40-character experiment name the derived
+		// `<experiment>-<algorithm>` names pass 63 characters
+		algoName := pick(rng, []string{"random", "random", "tpe", "bayesianoptimization", "acme-bayesian-search-with-gpu", "my-very-long-algorithm-name-for-tuning-models"})
+		cfg := configv1beta1.SuggestionConfig{AlgorithmName: algoName}
 		cfg.Container.Image = "img/random"
 		cfg.Container.Name = pick(rng, []string{"", "", "my-container", "suggestion"})
 		ptoks := []string{}
@@ -73,8 +76,8 @@ func init() {
 		cm := &corev1.ConfigMap{ObjectMeta: metav1.ObjectMeta{Name: "katib-config", Namespace: "kubeflow"}, Data: map[string]string{"katib-config.yaml": string(yb)}}
 		c := fake.NewClientBuilder().WithScheme(valScheme).WithObjects(cm).Build()
 		comp := composer.NewVerifComposer(valScheme, c)
-		s := &suggestionsv1beta1.Suggestion{ObjectMeta: metav1.ObjectMeta{Name: pick(rng, []string{"exp", "e1", "a-b"}), Namespace: pick(rng, []string{"ns1", "kubeflow", "team-x"}), UID: "uid-1"},
-			Spec: suggestionsv1beta1.SuggestionSpec{Algorithm: &commonv1beta1.AlgorithmSpec{AlgorithmName: "random"}}}
+		s := &suggestionsv1beta1.Suggestion{ObjectMeta: metav1.ObjectMeta{Name: pick(rng, []string{"exp", "e1", "a-b", "exp", "an-experiment-name-of-forty-characters-x", "thirty-three-characters-long-name"}), Namespace: pick(rng, []string{"ns1", "kubeflow", "team-x"}), UID: "uid-1"},
+			Spec: suggestionsv1beta1.SuggestionSpec{Algorithm: &commonv1beta1.AlgorithmSpec{AlgorithmName: algoName}}}
 		ltoks := []string{}
 		if rng.Intn(2) == 0 {
 			s.Labels = map[string]string{}
@@ -102,9 +105,12 @@ func init() {
 				esTok = "-"
 			}
 		}
-		op := fmt.Sprintf("C17 %s %s %d %s %s %s %s %s %d %s %s %s %d %s", hx(s.Name), hx(s.Namespace), len(ltoks), strings.Join(ltoks, " "), hx("random"), resumeTok(s.Spec.ResumePolicy), esTok,
+		op := fmt.Sprintf("C17 %s %s %d %s %s %s %s %s %d %s %s %s %d %s", hx(s.Name), hx(s.Namespace), len(ltoks), strings.Join(ltoks, " "), hx(algoName), resumeTok(s.Spec.ResumePolicy), esTok,
 			hx(cfg.Container.Name), len(ptoks), strings.Join(ptoks, " "), hx(cfg.ServiceAccountName), hx(cfg.VolumeMountPath), len(mtoks), strings.Join(mtoks, " "))
 		tags := []string{"resume=" + resumeTok(s.Spec.ResumePolicy)}
+		if len(s.Name)+1+len(algoName) > 63 {
+			tags = append(tags, "derived-name-longer-than-63")
+		}
 		if pvConfigured {
 			tags = append(tags, "pv-in-katib-config")
 		}
